@@ -37,7 +37,9 @@ muts = {
 			return gqlerror.Errorf'''),
  'M6-miss-not-answered-notfound': (APQ, '''			err := gqlerror.Errorf(errPersistedQueryNotFound)
 			errcode.Set(err, errPersistedQueryNotFoundCode)
-			return err''', '''			return nil'''),
+			return err''', '''			err := gqlerror.Errorf(errPersistedQueryNotFound)
+			errcode.Set(err, errPersistedQueryNotFoundCode)
+			return nil'''),
  'M7-lru-get-does-not-refresh': (LRU, 'return l.lru.Get(key)', 'return l.lru.Peek(key)'),
  'M8-store-under-computed-hash-of-trimmed-text': (APQ, 'a.Cache.Add(ctx, extension.Sha256, rawParams.Query)', 'a.Cache.Add(ctx, extension.Sha256, strings.TrimSpace(rawParams.Query))'),
  'M9-executor-rawquery-before-mutators': (EXE, '''	for _, p := range e.ext.operationParameterMutators {
